@@ -74,6 +74,9 @@ func convertScenarioToAmmo(sc config.ScenarioConfig, reqs map[string]config.Call
 		if sleep > 0 {
 			r.Sleep += time.Millisecond * time.Duration(sleep)
 		}
+		if cnt > config.MaxScenarioRequests-len(result.Calls) {
+			return nil, fmt.Errorf("%s: a scenario may hold at most %d requests", sh, config.MaxScenarioRequests)
+		}
 		for i := 0; i < cnt; i++ {
 			result.Calls = append(result.Calls, r)
 		}
